@@ -28,7 +28,8 @@ NOT proved when this header was written — NOW PROVED under explicit hypotheses
 appended at the end of this file (`C01_generic`; `C01_nnchain*`, `C01_linkage`): that the raw steps of
 `nnchain_with` and `generic_with` form a spanning tree.  Both need algorithm-specific invariants (chain entries are
 live and distinct — which in turn needs reducibility of the update, false under float rounding for
-average/Ward in ~11% of tied updates; `nearest[x]` is live and > x plus the heap invariants of
+weighted/Ward in ~11% of tied updates (and for the UNCLAMPED average of the crate before its `fix:`
+commit; the clamped average is reducible in every ordered number type, `Props/C01Average.lean`); `nearest[x]` is live and > x plus the heap invariants of
 `Lemmas/HeapInv*.lean`).  For these two entry points the claim rests on the bit-exact correspondence
 of the model with the real crate and on the structural validator (own `used[]` bitmap and size
 table, independent of kodama's union–find) run on every dendrogram the harness obtains.
@@ -198,9 +199,11 @@ end Kodama
 * `C01_nnchain_exact`  all five chain methods in exact arithmetic (`FieldLaws K`, no NaN).
 * `C01_linkage`   through `linkage_with` for every method it routes to mst or nnchain.
 
-NOT proved: `ChainReducible` for average / weighted / Ward over IEEE floats (FALSE there: rounding
+NOT proved: `ChainReducible` for weighted / Ward over IEEE floats (FALSE there: rounding
 breaks it in ~11% of tied updates) — for these on floats the claim rests on the bit-exact
-correspondence and the structural validator.
+correspondence and the structural validator.  For AVERAGE it was false too until the `fix:` commit of
+the crate (clamp of the mean from below); it is now a theorem for every `OrderLaws α`, see
+`Props/C01Average.lean` (`C01_nnchain_average`, `C01_linkage_average`).
 -/
 namespace Kodama
 open Spec
